@@ -2,6 +2,7 @@
 finishes (create / clean-up descriptor coverage)."""
 
 import ast
+import re
 import string
 
 from .. import cfg as C
@@ -105,7 +106,11 @@ class Sym(object):
         if isinstance(expr, ast.Subscript) and isinstance(expr.slice,
                                                           ast.Constant):
             base = self.term(expr.value, local)
-            if N.txt(expr.value) == 'app_network' or base == 'app_network':
+            # the network resource record: the local bound to
+            # <client>.get(<unique name>), whatever it is called
+            if N.txt(expr.value) == 'app_network' or base == 'app_network' \
+                    or re.match(r'^\w+\.get\(appcfg\.app_unique_name\(app\)\)$',
+                                base):
                 return '$net.%s' % expr.slice.value
             return '%s[%r]' % (base, expr.slice.value)
         if isinstance(expr, ast.Call):
@@ -407,8 +412,21 @@ def _entry_conditions(ctx, run, fin):
                     site = [n for n in graph.nodes if any(
                         c is sub for c in C.node_calls(n))][0]
                     count += 1
-                    ok = K.guarded_by(graph, site, lambda e: K.truth_edge(
-                        nz, e, 'app.shared_network', False))
+                    # the manifest handed to the callee, whatever the
+                    # caller calls it
+                    cdef = mod.functions.get(callee)
+                    appv = 'app'
+                    if cdef is not None and 'app' in cdef.params():
+                        pos = cdef.params().index('app')
+                        if pos < len(sub.args):
+                            appv = N.txt(sub.args[pos])
+                        for kw in sub.keywords:
+                            if kw.arg == 'app':
+                                appv = N.txt(kw.value)
+                    ok = K.guarded_by(graph, site, lambda e, a=appv:
+                                      K.truth_edge(nz, e,
+                                                   '%s.shared_network' % a,
+                                                   False))
                     ctx.ob('C16.1', func, site, ok,
                            '%s runs only for a private network (not '
                            'shared_network)' % callee,
@@ -623,11 +641,46 @@ def _ports(ctx):
            construct='prod environments')
     proto = rt.functions.get('_allocate_network_ports_proto')
     ctx.require(proto is not None, '_allocate_network_ports_proto')
-    src = ast.unparse(proto.node)
-    ok = 'sockets[idx]' in src and 'sockets[endpoints_count:]' in src and \
-        'enumerate(endpoints)' in src and \
-        'endpoints_count = len(endpoints)' in src and \
-        'endpoints_count + ephemeral_count' in src
+    # by data flow, whatever the locals are called: S = _allocate_sockets(..,
+    # len(E) + <ephemeral count>); for i, e in enumerate(E): S[i]; S[len(E):]
+    ok = False
+    for sub in K.walk_no_nested(proto.node):
+        if not (isinstance(sub, ast.Assign) and len(sub.targets) == 1 and
+                isinstance(sub.targets[0], ast.Name) and
+                isinstance(sub.value, ast.Call) and
+                K.callee_text(sub.value) == '_allocate_sockets' and
+                len(sub.value.args) == 4):
+            continue
+        socks = sub.targets[0].id
+        total = K.rexpr(proto, sub.value.args[3])
+        if not (isinstance(total, ast.BinOp) and
+                isinstance(total.op, ast.Add)):
+            continue
+        sides = [N.txt(total.left), N.txt(total.right)]
+        lens = [t for t in sides if t.startswith('len(')]
+        if len(lens) != 1 or not any('ephemeral_ports' in t for t in sides):
+            continue
+        named = lens[0][4:-1]           # the endpoint list, resolved
+        indexed = sliced = False
+        for loop in K.walk_no_nested(proto.node):
+            if isinstance(loop, ast.For) and \
+                    isinstance(loop.iter, ast.Call) and \
+                    K.callee_text(loop.iter) == 'enumerate' and \
+                    loop.iter.args and \
+                    K.rtxt(proto, loop.iter.args[0]) == named and \
+                    isinstance(loop.target, ast.Tuple):
+                idx = N.txt(loop.target.elts[0])
+                indexed = any(
+                    isinstance(n, ast.Subscript) and
+                    N.txt(n.value) == socks and N.txt(n.slice) == idx
+                    for st in loop.body for n in ast.walk(st))
+        for n in K.walk_no_nested(proto.node):
+            if isinstance(n, ast.Subscript) and N.txt(n.value) == socks and \
+                    isinstance(n.slice, ast.Slice) and \
+                    n.slice.upper is None and n.slice.lower is not None and \
+                    K.rtxt(proto, n.slice.lower) == lens[0]:
+                sliced = True
+        ok = indexed and sliced
     ctx.ob('C16.4', proto, None, ok,
            'one socket list is partitioned by index: [idx] (idx < n) for '
            'endpoints, [n:] for ephemeral ports, n + ephemeral requested',
